@@ -18,6 +18,7 @@ for x in b:
 json.dump(out, open('/verif/hooks.json', 'w'))
 EOF
 git checkout --ours MANIFEST.json known_findings.json 2>/dev/null
+for f in $(git diff --name-only --diff-filter=U | grep "^evidence/"); do git checkout --theirs "$f" && git add "$f"; done
 python3 gen_manifest.py
 git add hooks.json MANIFEST.json known_findings.json
 echo "--- unmerged paths:"
